@@ -284,12 +284,12 @@ func verifyBody(code []ds.VerifOp, body string, st *Stats, level int) []Violatio
 			}
 			pop(int(k))
 			pushN(1)
-		case "store":
+		case "store", "store.local":
 			needStr()
 			if s.depth < 1 {
 				add("underflow", pc, "reads the top of an empty stack")
 			}
-		case "store.local", "store.global", "push.global", "invoke.self", "or", "nop":
+		case "store.global", "push.global", "invoke.self", "or", "nop":
 			// no case in the dispatch loop: no effect at run time
 		case "invoke":
 			k, ok := intArg(op.Arg)
